@@ -29,12 +29,13 @@ VERUS_PROPS = {
     "C02": dict(units=ALL_TYPES + ["Derivative"]),
     "C03": dict(units=ALL_TYPES + ["Spec"]),
     "C04": dict(units=["Spec"]),
+    "C06": dict(units=ALL_TYPES + ["F64"]),
     "C07": dict(units=pl.VECTOR_UNITS + ["Derivative"]),
     "C08": dict(units=ALL_TYPES),
-    "C09": dict(units=ALL_TYPES + ["Spec"]),
-    "C10": dict(units=ALL_TYPES),
+    "C09": dict(units=ALL_TYPES + ["Spec", "F64"]),
+    "C10": dict(units=ALL_TYPES + ["F64"]),
     "C11": dict(units=["Dual", "Dual2", "DualVec", "Dual2Vec"]),
-    "C15": dict(units=ALL_TYPES),
+    "C15": dict(units=ALL_TYPES + ["F64"]),
 }
 
 
@@ -125,6 +126,11 @@ def required_anchors(pid, metas):
     for u, m in metas.items():
         names = {f["name"] for f in m["functions"]}
         if u == "Spec":
+            continue
+        if u == "F64":
+            for n in (["sph_j0", "sph_j1", "sph_j2"] if pid in ("C15", "C10") else ["sin", "cos", "exp", "ln", "powi", "powf", "recip", "sqrt"]):
+                if n not in names:
+                    lost.append("F64::" + n)
             continue
         if u == "Derivative":
             for n in ["mul", "div", "tr_mul", "add", "sub", "neg", "add_assign", "sub_assign", "mul_assign", "div_assign", "unwrap_generic"]:
